@@ -12,6 +12,7 @@ import Driver.ResultOps
 import Driver.StorageOps
 import Driver.PmsOps
 import Driver.BusOps
+import Driver.ElectricOps
 open Lean Driver
 
 def dispatch (op : String) (j : Json) : Except String Json :=
@@ -21,6 +22,7 @@ def dispatch (op : String) (j : Json) : Except String Json :=
   | "storage" => storageOp op j
   | "pms" => pmsOp op j
   | "bus" => busOp op j
+  | "electric" => electricOp op j
   | _ => .error s!"unknown op family in '{op}'"
 
 def handle (line : String) : String :=
